@@ -554,7 +554,7 @@ func (m *Master) finish() int {
 			// this run is confirmed the verdict stands on that one (typical cause: the implementation
 			// leaks state between calls, so a case fails only after the cases run before it in the
 			// same worker); if none is, the run is a harness failure — never a VIOLATION line.
-			unconfirmed = append(unconfirmed, fmt.Sprintf("violation %s not reproducible: %s", sig, why))
+			unconfirmed = append(unconfirmed, fmt.Sprintf("violation %s not reproducible: %s [first report: %s]", sig, why, oneLine(vs[0].Desc, 300)))
 			continue
 		}
 		nviol++
